@@ -4,6 +4,7 @@ package props
 
 import (
 	"go/ast"
+	"go/token"
 	"go/types"
 
 	"siotcheck/kit"
@@ -24,10 +25,9 @@ type c14Chain struct {
 	dateF       *types.Var
 	aft         *kit.Func
 	aftCall     *ast.CallExpr
-	ctorProblem string
+	ctorProblem string // definite defect of the construction
+	ctorUnknown string // construction not recognised (undecided)
 }
-
-var c14ChainCache = map[*kit.Ctx]*c14Chain{}
 
 func c14IsTime(t types.Type) bool { return kit.IsNamedType(t, "time", "Time") && !c14IsPtr(t) }
 
@@ -48,11 +48,11 @@ func c14IsStringSlice(t types.Type) bool {
 }
 
 func newC14Chain(c *kit.Ctx, m *ruModel) *c14Chain {
-	if ch, ok := c14ChainCache[c]; ok {
-		return ch
+	if m.chain != nil {
+		return m.chain
 	}
 	ch := &c14Chain{}
-	c14ChainCache[c] = ch
+	m.chain = ch
 	// 1. constructor call: receives <cond>.start and <cond>.end
 	for _, f := range c.P.Funcs(ruClientPkg) {
 		if f.Body == nil {
@@ -144,6 +144,11 @@ func newC14Chain(c *kit.Ctx, m *ruModel) *c14Chain {
 			ch.ctorProblem = s
 		}
 	}
+	unknown := func(s string) {
+		if ch.ctorUnknown == "" {
+			ch.ctorUnknown = s
+		}
+	}
 	for i, a := range ch.ctorCall.Args {
 		if i >= len(params) {
 			break
@@ -159,8 +164,17 @@ func newC14Chain(c *kit.Ctx, m *ruModel) *c14Chain {
 			ch.dateF = fv
 		case c14IsWeekdaySlice(f.Info().TypeOf(a)):
 			ch.wdF = fv
-			if !c14WeekdaysFrom(m, f, a) {
-				problem("the weekday list handed to the schedule constructor at " + f.At(a) + " is not built as {time.Weekday(i) : condition.weekday[i]}")
+			switch c14WeekdaysFrom(m, f, a) {
+			case "bad":
+				problem("the weekday list handed to the schedule constructor at " + f.At(a) + " does not select exactly the days i with condition.weekday[i] set (witness: weekday flags {Mon: true} → another set of days reaches the schedule)")
+			case "unknown":
+				unknown("the weekday list handed to the schedule constructor at " + f.At(a) + " is not built by the recognised loop {time.Weekday(i) : condition.weekday[i]}")
+			}
+		case i < len(params) && c14IsStringSlice(params[i].Type()) && !isCond:
+			if kit.IsNilIdent(f.Info(), a) {
+				problem("the schedule constructor at " + f.At(ch.ctorCall) + " receives nil instead of the condition's date list (witness: a condition restricted to one date is active on every day)")
+			} else {
+				unknown("the date list handed to the schedule constructor at " + f.At(a) + " is not the condition's date field")
 			}
 		}
 	}
@@ -170,9 +184,9 @@ func newC14Chain(c *kit.Ctx, m *ruModel) *c14Chain {
 	case ch.startF == ch.endF:
 		problem("start and end of the condition reach the same schedule field")
 	case ch.dateF == nil || !c14IsStringSlice(ch.dateF.Type()):
-		problem("the condition's date list does not reach a []string field of the schedule (constructor call at " + f.At(ch.ctorCall) + ")")
+		unknown("the condition's date list is not seen to reach a []string field of the schedule (constructor call at " + f.At(ch.ctorCall) + ")")
 	case ch.wdF == nil || !c14IsWeekdaySlice(ch.wdF.Type()):
-		problem("no weekday list reaches a []time.Weekday field of the schedule (constructor call at " + f.At(ch.ctorCall) + ")")
+		unknown("no weekday list is seen to reach a []time.Weekday field of the schedule (constructor call at " + f.At(ch.ctorCall) + ")")
 	}
 	if ch.dateF == nil || ch.wdF == nil {
 		// still needed as anchors by C14: pick by type
@@ -233,22 +247,23 @@ func newC14Chain(c *kit.Ctx, m *ruModel) *c14Chain {
 			okRecv = true
 		}
 		if !okRecv {
-			problem("the schedule predicate at " + f.At(ch.aftCall) + " is not applied to the schedule built from this condition")
+			unknown("the schedule predicate at " + f.At(ch.aftCall) + " is not seen to be applied to the schedule built from this condition")
 		}
 	}
 	return ch
 }
 
-// c14WeekdaysFrom checks that the weekday argument is a local slice whose
+// c14WeekdaysFrom classifies the weekday argument: "ok" = a local slice whose
 // only appends are `append(w, time.Weekday(k))` with k the key of a range
-// over the condition's weekday field, guarded by the range value.
-func c14WeekdaysFrom(m *ruModel, f *kit.Func, arg ast.Expr) bool {
+// over the condition's weekday field, each guarded by the range value;
+// "bad" = such a loop whose guard is missing or negated; "unknown" otherwise.
+func c14WeekdaysFrom(m *ruModel, f *kit.Func, arg ast.Expr) string {
 	info := f.Info()
 	w := kit.ObjOf(info, arg)
 	if w == nil {
-		return false
+		return "unknown"
 	}
-	appends, good := 0, 0
+	appends, good, bad, other := 0, 0, 0, 0
 	ruInspectOwn(f, func(n ast.Node) bool {
 		as, ok := n.(*ast.AssignStmt)
 		if !ok || len(as.Lhs) != 1 || len(as.Rhs) != 1 || kit.ObjOf(info, as.Lhs[0]) != w {
@@ -260,41 +275,70 @@ func c14WeekdaysFrom(m *ruModel, f *kit.Func, arg ast.Expr) bool {
 			if cl, isLit := ast.Unparen(as.Rhs[0]).(*ast.CompositeLit); isLit && len(cl.Elts) == 0 {
 				return true
 			}
-			appends += 100
+			if kit.IsNilIdent(info, as.Rhs[0]) {
+				return true
+			}
+			other++
 			return true
 		}
 		if b, isB := kit.Callee(info, call).(*types.Builtin); !isB || b.Name() != "append" || len(call.Args) != 2 || kit.ObjOf(info, call.Args[0]) != w {
-			appends += 100
+			other++
 			return true
 		}
 		appends++
 		conv, ok := ast.Unparen(call.Args[1]).(*ast.CallExpr)
 		if !ok || len(conv.Args) != 1 || !kit.IsNamedType(info.TypeOf(conv), "time", "Weekday") {
+			other++
 			return true
 		}
 		ko := kit.ObjOf(info, conv.Args[0])
 		rs := m.rangesOf(f).key[ko]
-		if rs == nil || rs.Value == nil {
+		if rs == nil || !(rs.Body.Pos() <= as.Pos() && as.End() <= rs.Body.End()) {
+			other++
 			return true
 		}
 		if tag, isCond := m.condField(f, rs.X); !isCond || tag != "weekday" {
+			other++
+			return true
+		}
+		if rs.Value == nil {
+			bad++ // every index selected
 			return true
 		}
 		vo := kit.ObjOf(info, rs.Value)
-		// guarded by `if v` (then branch)
+		// the statement must be the then-branch of `if v` directly in the loop body
 		ifs, _ := f.Enclosing(as, func(x ast.Node) bool { _, ok := x.(*ast.IfStmt); return ok }).(*ast.IfStmt)
-		if ifs == nil || !(ifs.Body.Pos() <= as.Pos() && as.End() <= ifs.Body.End()) {
+		if ifs == nil || ifs.Pos() < rs.Body.Pos() {
+			bad++ // unconditional append inside the loop
 			return true
 		}
+		inThen := ifs.Body.Pos() <= as.Pos() && as.End() <= ifs.Body.End()
 		cond := ast.Unparen(ifs.Cond)
+		pos, known := false, false
 		if kit.ObjOf(info, cond) == vo {
-			good++
-		} else if a, b, neg, isEq := ruEqLeaf(cond); isEq && !neg {
-			if tv, has := info.Types[b]; has && tv.Value != nil && kit.ObjOf(info, a) == vo && tv.Value.String() == "true" {
-				good++
+			pos, known = true, true
+		} else if u, isNot := cond.(*ast.UnaryExpr); isNot && u.Op == token.NOT && kit.ObjOf(info, u.X) == vo {
+			pos, known = false, true
+		} else if a, b, neg, isEq := ruEqLeaf(cond); isEq {
+			if tv, has := info.Types[b]; has && tv.Value != nil && kit.ObjOf(info, a) == vo {
+				pos, known = (tv.Value.String() == "true") != neg, true
 			}
+		}
+		switch {
+		case !known:
+			other++
+		case pos == inThen:
+			good++
+		default:
+			bad++
 		}
 		return true
 	})
-	return appends >= 1 && appends == good
+	switch {
+	case other > 0 || appends == 0:
+		return "unknown"
+	case bad > 0:
+		return "bad"
+	}
+	return "ok"
 }
